@@ -39,6 +39,13 @@ def labelled_fn(_xv=None, **kw):
     return compute(spec, kw)
 
 
+def undefined_at(spec, kw):
+    """spec['nan_mod'] = k: the function is undefined (all outputs NaN) on
+    about one in k settings - a legitimate result, not a missing one."""
+    k = spec.get("nan_mod")
+    return bool(k) and models.kw_number(kw, salt=99) % k == 0
+
+
 def compute(spec, kw):
     import xarray as xr
     kw = {k: v for k, v in kw.items()}
@@ -46,6 +53,8 @@ def compute(spec, kw):
     for j, (name, dims) in enumerate(spec["vars"]):
         shape = tuple(spec["sizes"][d] for d in dims)
         val = var_value(kw, j, shape) + spec.get("epoch", 0)
+        if undefined_at(spec, kw):
+            val = val * float("nan")
         if spec.get("str_var") == j and not shape:
             val = "txt%d" % int(val)          # a string-valued scalar output
         outs.append(val)
